@@ -51,24 +51,18 @@ def run_one(acc, front, framing, cfg, seq, delivery, record=True):
         reqs.append((unit, tid, tok))
         frames.append(scenario.frame(framing, unit, tid, m))
         expected.append(ref.handle(unit, scenario.as_msg(m) if not isinstance(m, dict) else m))
-    writes = []
+    whole = b''.join(frames)
+    cut = len(whole) - len(frames[-1]) // 2 - 1          # inside the last frame
     if delivery == 'pipelined':
-        writes.extend(conn.feed(b''.join(frames)))
+        script = [whole]
     elif delivery == 'split':
-        whole = b''.join(frames)
-        cut = len(whole) - len(frames[-1]) // 2 - 1          # inside the last frame
-        writes.extend(conn.feed(whole[:cut]))
-        writes.extend(conn.feed(whole[cut:]))
+        script = [whole[:cut], whole[cut:]]
     elif delivery == 'timeout+split':
         import socket
-        conn.feed(None, fault=socket.timeout('timed out'))     # an idle period on the connection first
-        whole = b''.join(frames)
-        cut = len(whole) - len(frames[-1]) // 2 - 1
-        writes.extend(conn.feed(whole[:cut]))
-        writes.extend(conn.feed(whole[cut:]))
+        script = [socket.timeout('timed out'), whole[:cut], whole[cut:]]     # an idle period on the connection first
     else:
-        for f in frames:
-            writes.extend(conn.feed(f))
+        script = list(frames)
+    writes = conn.run_script(script)
     got = scenario.parse_out(framing, writes)
     srv.shutdown()
     wit = dict(front=front, framing=framing, cfg=[cfg.single, list(cfg.units), cfg.broadcast, cfg.ignore],
